@@ -12,6 +12,11 @@
 //     with total = the range visited by the sequential counterpart (bound through the workers==1 call,
 //     or by name), and chunk width = ⌊total/workers⌋ (int(math.Floor(float/float)) or integer division),
 //     which makes the boundaries monotone inside [0,total]. Anything else is UNDECIDED.
+//     F:worker-count — when the spawn loop's bound is not the pool-size parameter itself (a clamped or
+//     recomputed count) it becomes a symbol `workers` for all identities above, and a lower bound of
+//     it (constants, parameters ≥ 1, len = total ≥ 1, φ choices, min/max, division by a constant)
+//     must be ≥ 1 whenever total ≥ 1: an attainable bound of 0 is a VIOLATION (no worker, nothing
+//     visited), an unknown one UNDECIDED.
 //   - SHAPE-2   callback gets (idx, element idx): slice element index, integer call arguments (m.Tri(i))
 //     and integer fields of a literal (&Point{index:i}) that depend on the loop variable must equal idx;
 //     same element source as the sequential visit; result stored at dst[idx] of make(…, total).
